@@ -29,6 +29,14 @@ observables of EVERY live object are taken after EVERY call and
                          influence U (perturbation)
       frozen             a frozen copy lists no parameter and its U never changes while it is not
                          itself the target of a call.
+      unaffected         an accepted call on one Parameter / ParameterDict leaves (value, min, max) of every
+                         OTHER Parameter exactly as it was (each Parameter has its own bounds)
+      caller_data        the containers the client handed over (the bounds list / tuple of one or several
+                         Parameters, the dict a ParameterDict was filled from, the dict given to mode_swaps) stay
+                         the client's: when the client writes into them afterwards, or into a list / dict that a
+                         library call returned (get_all_params, ParameterDict.items / params / get_bounds),
+                         every observable of every library object is what it was; and no library call writes into
+                         a container of the client.
 
 Streams (in this order):
   corpus     hand-written histories (paramgen.corpus): bounds / values exactly 0 in every spelling, equal
@@ -39,6 +47,11 @@ Streams (in this order):
   boundary   random walks just outside / on / across the bounds of Parameters pinned to a pivot
              (gen_boundary_history)
   rewrite    build -> nest -> rewrite -> update rounds (gen_rewrite_history)
+  shared     caller-owned data (gen_shared_history): several Parameters built from ONE bounds container, several
+             ParameterDicts filled from ONE dict; bound updates on one holder beyond the value of another, rejected
+             updates, updates of the others inside the bounds they were given, the client writing into its
+             containers / into returned objects in between, further Parameters from the container as it is then.
+             The client's own writes are no calls into the library: they are not sent to the model.
   probe      inputs outside the ordered domain (NaN, ...), implementation only
 `shape:` counters in the evidence are computed from the EXECUTED histories (not from the generator's
 intent); the run is a machinery fault if the corpus did not exercise every required shape.
@@ -93,9 +106,19 @@ ASSUMPTIONS = [
 INCLUDE_REWRITES = os.environ.get("C10_REWRITES", "1") != "0"
 # experiments only: C10_STREAMS=generic,boundary,rewrite leaves the directed corpus out (to measure what the
 # random streams find on their own); the default runs everything
-STREAMS = [x for x in os.environ.get("C10_STREAMS", "corpus,generic,boundary,rewrite,probe").split(",") if x]
+STREAMS = [x for x in os.environ.get("C10_STREAMS", "corpus,generic,boundary,rewrite,shared,probe").split(",") if x]
 
-CLAUSES = ("bounds_invariant", "rejected_noop", "live", "invalid_value", "listing", "frozen")
+CLAUSES = ("bounds_invariant", "rejected_noop", "live", "invalid_value", "listing", "frozen", "unaffected", "caller_data")
+
+
+def may_change(op: list, prev: dict) -> set:
+    """Parameters whose (value, min, max) an accepted library call is entitled to change"""
+    name = op[0]
+    if name in ("pnew", "pset", "pmin", "pmax"):
+        return {op[1]}
+    if name == "dset":
+        return {q for key, q, _ in prev["dicts"].get(op[1], []) if key == op[2]}
+    return set()
 
 
 def target_of(op: list):
@@ -243,9 +266,15 @@ def run_case(ctx: Ctx, prog: list, sample_pts: int = 3, stats: dict | None = Non
     mislisted: set = set()
     prev = pg.snapshot(w)
     for k, op in enumerate(prog):
+        boxes_before = pg.box_snapshot(w)
         r = pg.apply_op(w, op)
         results.append(r)
         snap = pg.snapshot(w)
+        if op[0] not in pg.CLIENT_OPS and op[0] != "swaps":
+            d = pg.box_diff(boxes_before, pg.box_snapshot(w))
+            if d is not None:
+                probs.append(("oracle", "caller_data", f"call #{k} {op[:3]} ({r}) wrote into a container that belongs to the "
+                              f"client: {d}"))
         snaps.append(snap)
         hist_vals.append({pid: v[0] for pid, v in snap["params"].items()})
         # -- listing (exactly the parameters the circuit was given)
@@ -262,6 +291,22 @@ def run_case(ctx: Ctx, prog: list, sample_pts: int = 3, stats: dict | None = Non
             d = pg.snap_diff(prev, snap)
             if d is not None:
                 probs.append(("oracle", "rejected_noop", f"call #{k} {op[:4]} raised {r} but changed state: {d}"))
+        # -- caller_data: what the client does with its own containers / with returned objects
+        elif op[0] in pg.CLIENT_OPS:
+            d = pg.snap_diff(prev, snap)
+            if d is not None:
+                what = {"cbox": "made a container", "cmut": f"wrote ({op[2]}) into its own container {op[1]}",
+                        "cscrib": f"wrote into the object returned by {op[1]} of {op[2]}"}[op[0]]
+                probs.append(("oracle", "caller_data", f"step #{k}: the client {what} - no call into the library - and "
+                              f"a library object changed: {d}"))
+        # -- unaffected: an accepted call moves only the Parameter it names
+        else:
+            allowed = may_change(op, prev)
+            for pid, was in prev["params"].items():
+                now = snap["params"].get(pid)
+                if pid not in allowed and now is not None and not all(pg.same_val(a, b) for a, b in zip(was, now)):
+                    probs.append(("oracle", "unaffected", f"call #{k} {op[:3]} (accepted) changed parameter {pid}, which it "
+                                  f"does not name: (value, min, max) {was} -> {now}"))
         # -- bounds_invariant
         for pid, (val, lo, hi) in snap["params"].items():
             if not pg.in_bounds(val, lo, hi):
@@ -277,7 +322,7 @@ def run_case(ctx: Ctx, prog: list, sample_pts: int = 3, stats: dict | None = Non
                               f"that is none of the user's"))
         # -- frozen copies
         if r == "ok":
-            frozen.pop(target_of(op), None) if op[0] not in pg.PARAM_OPS else None
+            frozen.pop(target_of(op), None) if op[0] not in pg.PARAM_OPS and op[0] not in pg.CLIENT_OPS else None
             if op[0] == "freeze":
                 o = snap["circs"][op[1]]
                 frozen[op[1]] = o
@@ -297,14 +342,18 @@ def run_case(ctx: Ctx, prog: list, sample_pts: int = 3, stats: dict | None = Non
         for clause, text in pg.shadow_check(prog, results, hist_vals, t, snaps[t], memo):
             probs.append(("corr" if clause == "shadow" else "oracle", clause, text))
     # -- model
-    if model != "none" and prog:
-        mres = model_run(ctx, prog, each=model == "each")
-        if mres["results"] != results:
-            idx = next(i for i, (a, b) in enumerate(zip(results, mres["results"])) if a != b)
-            probs.append(("corr", "outcome", f"call #{idx} {prog[idx][:5]} impl={results[idx]} model={mres['results'][idx]}"))
+    # (the client's own writes are not calls into the library: the model sees the library calls only, and its
+    # snapshot after call j is compared with the implementation's after the same call)
+    mprog, at = pg.model_view(prog)
+    if model != "none" and mprog:
+        mres = model_run(ctx, mprog, each=model == "each")
+        lib_results = [results[k] for k in at]
+        if mres["results"] != lib_results:
+            j = next(i for i, (a, b) in enumerate(zip(lib_results, mres["results"])) if a != b)
+            probs.append(("corr", "outcome", f"call #{at[j]} {prog[at[j]][:5]} impl={lib_results[j]} model={mres['results'][j]}"))
         elif model == "each":
-            for k, (snap, ms) in enumerate(zip(snaps, mres["snaps"])):
-                ps = compare_snap(k, prog[k], snap, ms)
+            for j, ms in enumerate(mres["snaps"]):
+                ps = compare_snap(at[j], prog[at[j]], snaps[at[j]], ms)
                 probs += ps
                 if ps:
                     break
@@ -610,6 +659,13 @@ REQUIRED_SHAPES = (
     "shape:frozen while a Parameter == 0", "shape:zero spelled int", "shape:zero spelled float", "shape:zero spelled -0.0",
     "shape:nonadj of a non-adjacent Parameter beam splitter, then update",
     *(f"shape:{r}@depth{d}, then update" for r in REWRITE_OPS[:6] for d in (0, 1, 2) if (r, d) != ("add", 0)),
+    "shape:shared bounds container (list), accepted bound update on one holder beyond the value of another",
+    "shape:shared bounds container (tuple), accepted bound update on one holder beyond the value of another",
+    "shape:shared bounds container, rejected bound update on one holder",
+    "shape:shared bounds container, value update of a holder after a bound update of another",
+    "shape:client writes into a bounds list it handed over", "shape:Parameter from a bounds list the client has rewritten",
+    "shape:client writes into the dict a ParameterDict was filled from", "shape:one client dict, two ParameterDicts",
+    "shape:client writes into the dict given to mode_swaps", "shape:client writes into a returned object",
 )
 
 
@@ -625,10 +681,59 @@ def shapes(prog: list, results: list[str], snaps: list[dict]) -> list[str]:
     depth: dict[str, int] = {}    # cid -> nesting depth of its deepest Parameter field
     pending: list = []            # rewrites waiting for a later accepted update of one of their parameters
     dropped: dict = {}            # (pid, side) -> bound that was removed
+    box_kind: dict = {}           # the client's containers
+    box_holders: dict = {}        # container -> Parameters built from it
+    box_written: set = set()
+    box_dicts: dict = {}
+    squeezed: dict = {}           # container -> holders whose bounds were updated
     for k, (op, r) in enumerate(zip(prog, results)):
         name = op[0]
         before = snaps[k - 1] if k else {"params": {}, "dicts": {}, "circs": {}}
         after = snaps[k]
+        if name == "cbox":
+            box_kind[op[1]] = op[2]
+            box_holders[op[1]] = []
+            continue
+        if name == "cmut":
+            if op[1].startswith("swaps:"):
+                out.append("shape:client writes into the dict given to mode_swaps")
+            elif op[1] in box_dicts:
+                out.append("shape:client writes into the dict a ParameterDict was filled from")
+            elif box_kind.get(op[1]) == "list" and box_holders.get(op[1]):
+                out.append("shape:client writes into a bounds list it handed over")
+                box_written.add(op[1])
+            continue
+        if name == "cscrib":
+            out.append("shape:client writes into a returned object")
+            continue
+        if name == "pnew" and len(op) > 4 and r == "ok":
+            bx = op[4]["box"]
+            box_holders.setdefault(bx, []).append(op[1])
+            if bx in box_written:
+                out.append("shape:Parameter from a bounds list the client has rewritten")
+        if name == "dnew" and len(op) > 3 and r == "ok":
+            box_dicts[op[3]["box"]] = box_dicts.get(op[3]["box"], 0) + 1
+            if box_dicts[op[3]["box"]] == 2:
+                out.append("shape:one client dict, two ParameterDicts")
+        for bx, hs in box_holders.items():
+            if len(hs) < 2 or name not in ("pmin", "pmax", "pset", "dset"):
+                continue
+            tgt = may_change(op, before)
+            if not tgt & set(hs):
+                continue
+            t = next(iter(tgt & set(hs)))
+            if name in ("pmin", "pmax"):
+                if r != "ok":
+                    out.append("shape:shared bounds container, rejected bound update on one holder")
+                elif op[2] is not None and "n" in op[2]:
+                    squeezed.setdefault(bx, set()).add(t)
+                    b = op[2]["py"]
+                    vals = [before["params"][q][0] for q in hs if q != t and q in before["params"]]
+                    if any(isinstance(x, (int, float)) and (x > b if name == "pmax" else x < b) for x in vals):
+                        out.append(f"shape:shared bounds container ({box_kind.get(bx)}), accepted bound update on one holder "
+                                   f"beyond the value of another")
+            elif r == "ok" and squeezed.get(bx, set()) - {t}:
+                out.append("shape:shared bounds container, value update of a holder after a bound update of another")
         for x in op:
             for v in (x if isinstance(x, list) else [x]):
                 if isinstance(v, dict) and "py" in v and is_zero(v["py"]) and "n" in v:
@@ -738,6 +843,9 @@ def run(ctx: Ctx) -> None:
                 "circuits: value/bound updates (accepted and rejected), ParameterDict updates, components with "
                 "Parameter fields in every role, add/copy/+/unpack/herald, swap compression and non-adjacent-BS removal, "
                 "frozen copies; boundary walks around pinned Parameters; build -> nest -> rewrite -> update rounds; "
+                "caller-owned data (one bounds list / tuple for several Parameters, one dict for several ParameterDicts, bound "
+                "updates on one holder beyond the value of another, the client writing into its containers and into returned "
+                "objects in between); "
                 "non-trivial = at least one accepted component holding a Parameter and one accepted update, or (boundary "
                 "streams) one accepted and one rejected update; distinct = distinct op list")
     self_test(ctx)
@@ -770,7 +878,7 @@ def run(ctx: Ctx) -> None:
         if any(op[0] == "add" and r == "ok" for op, r in zip(prog, res)):
             ctx.count("history:accepted add")
         upd = [r for op, r in zip(prog, res) if op[0] in ("pset", "pmin", "pmax", "dset")]
-        nt = nontrivial(prog, res) or (stream in ("corpus", "boundary") and "ok" in upd and any(r != "ok" for r in upd))
+        nt = nontrivial(prog, res) or (stream in ("corpus", "boundary", "shared") and "ok" in upd and any(r != "ok" for r in upd))
         ctx.case(json.dumps(prog), nt, sample=prog if state["i"] in (0, 60) else None)
         state["i"] += 1
         if probs:
@@ -797,7 +905,8 @@ def run(ctx: Ctx) -> None:
         if missing and "corpus" in STREAMS and not (ctx.violations or ctx.disagreements):
             raise MachineryFault(f"the directed corpus no longer exercises: {missing}")
         # -- random streams, interleaved so that a time cap cuts all of them alike
-        plan = (["generic"] * ctx.n(300, 3000) + ["boundary"] * ctx.n(300, 3000) + ["rewrite"] * ctx.n(150, 1500))
+        plan = (["generic"] * ctx.n(300, 3000) + ["boundary"] * ctx.n(300, 3000) + ["rewrite"] * ctx.n(150, 1500)
+                + ["shared"] * ctx.n(220, 2200))
         plan = [x for x in plan if x in STREAMS]
         rng.shuffle(plan)
         for i, stream in enumerate(plan):
@@ -805,6 +914,8 @@ def run(ctx: Ctx) -> None:
                 prog, counts = pg.gen_history(rng, big=ctx.thorough, rewrites=INCLUDE_REWRITES)
             elif stream == "boundary":
                 prog, counts = pg.gen_boundary_history(rng, big=ctx.thorough)
+            elif stream == "shared":
+                prog, counts = pg.gen_shared_history(rng, big=ctx.thorough)
             else:
                 prog, counts = pg.gen_rewrite_history(rng, big=ctx.thorough)
             # the exact model of a nested, rewritten circuit is the expensive part of a `rewrite` history: two in
@@ -818,7 +929,7 @@ def run(ctx: Ctx) -> None:
                 eprint(f"[C10] {i + 1}/{len(plan)} histories, {round(time.time() - ctx.t0)}s")
 
     streams()
-    if STREAMS != ["corpus", "generic", "boundary", "rewrite", "probe"]:
+    if STREAMS != ["corpus", "generic", "boundary", "rewrite", "shared", "probe"]:
         ctx.notes.append(f"C10_STREAMS={','.join(STREAMS)}: not the full check")
     for i in range(ctx.n(360, 3600) if "probe" in STREAMS else 0):
         if ctx.out_of_time():
